@@ -47,4 +47,20 @@ def nr52Value (on s1 s2 s3 s4 : Bool) : Nat :=
   0x70 ||| (if on then 0x80 else 0) ||| (if s4 then 8 else 0) ||| (if s3 then 4 else 0) |||
   (if s2 then 2 else 0) ||| (if s1 then 1 else 0)
 
+/-! ## C21 – waveform frequencies (closed formulas of the documentation) -/
+
+/-- channels 1/2: one duty step every 4·(2048−f) clocks -/
+def squarePeriod (f : Nat) : Nat := 4 * (2048 - f)
+/-- channel 3: one wave sample every 2·(2048−f) clocks -/
+def wavePeriod (f : Nat) : Nat := 2 * (2048 - f)
+/-- channel 4 divisor table: d = 8, 16, 32, 48, 64, 80, 96, 112 for r = 0–7 -/
+def noiseDivisor (r : Nat) : Nat := [8, 16, 32, 48, 64, 80, 96, 112].getD r 0
+/-- channel 4: the LFSR is clocked every d(r)·2^s clocks -/
+def noisePeriod (r s : Nat) : Nat := noiseDivisor r * 2 ^ s
+
+/-- the 15-bit noise generator: shift right, the XOR of the old bits 0 and 1 enters at bit 14 -/
+def lfsr15 (x : Nat) : Nat := x / 2 + 16384 * ((x % 2 + x / 2 % 2) % 2)
+/-- the 7-bit noise generator (NR43 bit 3): the same on 7 bits, the XOR enters at bit 6 -/
+def lfsr7 (x : Nat) : Nat := x / 2 + 64 * ((x % 2 + x / 2 % 2) % 2)
+
 end Tetro.Spec.Apu
